@@ -162,7 +162,7 @@ class DirectoryRecord:
     __slots__ = ('initialized', 'new_extent_loc', 'ptr', 'extents_to_here',
                  'offset_to_here', 'data_continuation', 'vd', 'children',
                  'rr_children', 'inode', '_printable_name', 'date',
-                 'index_in_parent', 'dr_len', 'xattr_len', 'file_flags',
+                 'index_in_parent', 'is_rr_moved_dir', 'dr_len', 'xattr_len', 'file_flags',
                  'file_unit_size', 'interleave_gap_size', 'len_fi', 'isdir',
                  'orig_extent_loc', 'data_length', 'seqnum', 'is_root',
                  'parent', 'rock_ridge', 'xa_record', 'file_ident')
@@ -187,6 +187,7 @@ class DirectoryRecord:
         self.children = []  # type: List[DirectoryRecord]
         self.rr_children = []  # type: List[DirectoryRecord]
         self.index_in_parent = -1
+        self.is_rr_moved_dir = False
         self.is_root = False
         self.isdir = False
         self.rock_ridge = None  # type: Optional[rockridge.RockRidge]
@@ -787,7 +788,7 @@ class DirectoryRecord:
         is_duplicate = False
         if index != len(self.children) and self.children[index].file_ident == child.file_ident:
             if not self.children[index].is_associated_file() and not child.is_associated_file():
-                if not (self.rock_ridge is not None and self.file_identifier() == b'RR_MOVED'):
+                if not self.is_rr_moved_dir:
                     if not allow_duplicate:
                         raise pycdlibexception.PyCdlibInvalidInput('Failed adding duplicate name to parent')
                     is_duplicate = True
@@ -809,9 +810,11 @@ class DirectoryRecord:
             rr_index = lo
             # Only refuse a duplicate Rock Ridge name for a new entry; when
             # parsing (check_overflow is False) we take what is on the disc.
-            # Relocated directories collected in RR_MOVED keep the names they
-            # have in their real parents, so they may legitimately collide.
-            in_rr_moved = self.rock_ridge is not None and self.file_identifier() == b'RR_MOVED'
+            # Relocated directories collected in the relocation directory (which
+            # the PyCdlib object marks as such, whatever its name is) keep the
+            # names they have in their real parents, so they may legitimately
+            # collide.
+            in_rr_moved = self.is_rr_moved_dir
             if check_overflow and not allow_duplicate and not in_rr_moved and rr_index > 0:
                 # Entries with an equal name sort before the insertion point.
                 rr = self.rr_children[rr_index - 1].rock_ridge
